@@ -805,7 +805,7 @@ func main() {
 		checkFile("fixed", []byte(s), 0)
 		emitStmtCases([]byte(s), r.Fork(1000+i), 50)
 	}
-	if ents, err := os.ReadDir("/verif/corpus/C14"); err == nil {
+	if ents, err := os.ReadDir("/verif/corpus/C14"); err == nil && os.Getenv("C14_NOCORPUS") == "" {
 		for i, e := range ents {
 			if b, err := os.ReadFile(filepath.Join("/verif/corpus/C14", e.Name())); err == nil && strings.HasSuffix(e.Name(), ".go") {
 				// the regression mini-corpus: one rare construct per file; unchanged in two modes,
